@@ -6,6 +6,7 @@ McConfigs == {c \in [policy : Policies, static : McStatic, disc : BOOLEAN] : Acc
 (* the configurations the pinned weightedRandom code can serve: total weight never 0 *)
 PosConfigs == {c \in [policy : Policies, static : PosStatic, disc : BOOLEAN] : Accepted(c)}
 RRConfigs == {c \in McConfigs : c.policy \in {"roundRobin", "any"}}
+RROnlyConfigs == {c \in McConfigs : c.policy = "roundRobin"}
 WRConfigs == {c \in McConfigs : c.policy \in {"weightedRandom", "random"}}
 HashConfigs == {c \in McConfigs : c.policy \in {"ipHash", "headerHash"}}
 =============================================================================
